@@ -2,6 +2,7 @@
   C20 `lax_superset`: the strict/lax simulation over `File.add`, `addBlockLines`, `addStmts` and `fixRetract`.
 -/
 import ModVerif.Proofs.ModfileC20Stmts
+import ModVerif.Proofs.ModfileC20Ids
 import ModVerif.Proofs.ModfileRule
 namespace ModVerif.Proofs.ModfileC20
 open ModVerif ModVerif.Modfile
@@ -344,5 +345,286 @@ theorem addStmts_sim (fix : Option Fixer) :
     | commentBlock c => exact hskip _ hok
     | lparen c => exact hskip _ hok
     | rparen c => exact hskip _ hok
+
+
+/-! ### fixRetract -/
+
+def NodupIds (xs : List Expr) : Prop := ((linesOf xs).map (·.id)).Nodup
+
+/-- `updateLine`'s per-line function -/
+def updF (id : Nat) (g : Line → Line) (l : Line) : Line := if l.id == id then g l else l
+
+theorem map_eq_self {α : Type} {f : α → α} : ∀ {l : List α}, (∀ x ∈ l, f x = x) → l.map f = l := by
+  intro l
+  induction l with
+  | nil => intro _; rfl
+  | cons a rest ih =>
+    intro h
+    rw [List.map_cons, h a (by simp), ih (fun x hx => h x (List.mem_cons_of_mem _ hx))]
+
+theorem inj_of_nodup_ids : ∀ {l : List Line}, (l.map (·.id)).Nodup → ∀ {a b : Line}, a ∈ l → b ∈ l → a.id = b.id → a = b := by
+  intro l
+  induction l with
+  | nil => intro _ a b ha; cases ha
+  | cons x rest ih =>
+    intro hn a b ha hb hid
+    simp only [List.map_cons, List.nodup_cons] at hn
+    simp only [List.mem_cons] at ha hb
+    rcases ha with rfl | ha <;> rcases hb with rfl | hb
+    · rfl
+    · exact absurd (hid ▸ List.mem_map_of_mem (f := (·.id)) hb) hn.1
+    · exact absurd (hid.symm ▸ List.mem_map_of_mem (f := (·.id)) ha) hn.1
+    · exact ih hn.2 ha hb hid
+
+theorem updateLineIn_eq_map (id : Nat) (g : Line → Line) :
+    ∀ (ls : List Line), (ls.map (·.id)).Nodup → updateLineIn id g ls = ls.map (updF id g) := by
+  intro ls
+  induction ls with
+  | nil => intro _; rfl
+  | cons l rest ih =>
+    intro hn
+    simp only [List.map_cons, List.nodup_cons] at hn
+    unfold updateLineIn
+    split
+    · rename_i hid
+      simp only [List.map_cons, updF, hid, if_true]
+      congr 1
+      -- no other line has this identity
+      have : ∀ x ∈ rest, updF id g x = x := by
+        intro x hx
+        unfold updF
+        split
+        · rename_i hx'
+          exfalso
+          apply hn.1
+          have e1 : l.id = id := by simpa using hid
+          have e2 : x.id = id := by simpa using hx'
+          rw [e1, ← e2]
+          exact List.mem_map_of_mem hx
+        · rfl
+      exact (map_eq_self this).symm
+    · rename_i hid
+      simp only [List.map_cons, updF, hid]
+      rw [ih hn.2]
+      rfl
+
+theorem linesOf_updateLine (id : Nat) (g : Line → Line) (fs : FileSyntax) (hn : NodupIds fs.stmts) :
+    linesOf (fs.updateLine id g).stmts = (linesOf fs.stmts).map (updF id g) := by
+  unfold FileSyntax.updateLine
+  simp only
+  unfold NodupIds at hn
+  generalize fs.stmts = xs at hn
+  induction xs with
+  | nil => rfl
+  | cons x rest ih =>
+    cases x with
+    | line l =>
+      simp only [linesOf_line, List.map_cons, List.nodup_cons] at hn
+      simp only [List.map_cons]
+      split <;> simp only [linesOf_line, List.map_cons, ih hn.2, updF, *] <;> rfl
+    | lineBlock b =>
+      simp only [linesOf_block, List.map_append] at hn
+      have h1 := (List.nodup_append.mp hn).1
+      have h2 := (List.nodup_append.mp hn).2.1
+      simp only [List.map_cons, linesOf_block, List.map_append, ih h2, updateLineIn_eq_map id g b.lines h1]
+    | commentBlock c => simp only [linesOf_commentBlock] at hn; simp only [List.map_cons, linesOf_commentBlock, ih hn]
+    | lparen c => simp only [linesOf_lparen] at hn; simp only [List.map_cons, linesOf_lparen, ih hn]
+    | rparen c => simp only [linesOf_rparen] at hn; simp only [List.map_cons, linesOf_rparen, ih hn]
+
+theorem findLine_of_mem {fs : FileSyntax} {a : Line} (hn : NodupIds fs.stmts) (ha : a ∈ linesOf fs.stmts) :
+    fs.findLine a.id = some a := by
+  unfold FileSyntax.findLine
+  rw [allLines_eq]
+  cases hf : (linesOf fs.stmts).find? (fun l => l.id == a.id) with
+  | none =>
+    have := List.find?_eq_none.mp hf a ha
+    simp at this
+  | some a' =>
+    have hmem := List.mem_of_find?_eq_some hf
+    have hid : a'.id = a.id := by simpa using List.find?_some hf
+    exact congrArg some (inj_of_nodup_ids hn hmem ha hid)
+
+
+/-- every retract entry refers to a line that both trees contain -/
+def Common (TS TL : FileSyntax) (rs : List Retract) : Prop :=
+  ∀ r ∈ rs, ∃ a, a ∈ linesOf TS.stmts ∧ a ∈ linesOf TL.stmts ∧ a.id = r.lineId
+
+theorem updF_id (id : Nat) (toks : List Bytes) (l : Line) :
+    (updF id (fun l' => { l' with token := toks }) l).id = l.id := by
+  unfold updF; split <;> rfl
+
+theorem nodupIds_updateLine (id : Nat) (toks : List Bytes) (fs : FileSyntax) (hn : NodupIds fs.stmts) :
+    NodupIds (fs.updateLine id (fun l' => { l' with token := toks })).stmts := by
+  unfold NodupIds
+  rw [linesOf_updateLine id _ fs hn, List.map_map]
+  have : ((·.id) ∘ updF id (fun l' => { l' with token := toks })) = (·.id) := by
+    funext l; exact updF_id id toks l
+  rw [this]; exact hn
+
+theorem fixRetractLoop_sim (path : Bytes) (fx : Fixer) :
+    ∀ (rs : List Retract) (TS TL : FileSyntax) (e : List RuleErr), NodupIds TS.stmts → NodupIds TL.stmts →
+    Common TS TL rs →
+    (fixRetractLoop path fx rs TS e).1 = (fixRetractLoop path fx rs TL e).1 ∧
+    (fixRetractLoop path fx rs TS e).2.2 = (fixRetractLoop path fx rs TL e).2.2 := by
+  intro rs
+  induction rs with
+  | nil => intro TS TL e _ _ _; exact ⟨rfl, rfl⟩
+  | cons r rest ih =>
+    intro TS TL e hnS hnL hc
+    obtain ⟨a, haS, haL, hid⟩ := hc r (by simp)
+    have hfS := findLine_of_mem hnS haS
+    have hfL := findLine_of_mem hnL haL
+    rw [hid] at hfS hfL
+    rw [fixRetractLoop_cons, fixRetractLoop_cons, hfS, hfL]
+    simp only
+    have hstep1 : (frStep path fx TS r a e).1 = (frStep path fx TL r a e).1 := rfl
+    have hstep3 : (frStep path fx TS r a e).2.2 = (frStep path fx TL r a e).2.2 := rfl
+    have hc' : Common (frStep path fx TS r a e).2.1 (frStep path fx TL r a e).2.1 rest := by
+      intro r' hr'
+      obtain ⟨a', h1, h2, h3⟩ := hc r' (List.mem_cons_of_mem _ hr')
+      refine ⟨updF r.lineId (fun l' => { l' with
+        token := (frArgs a).1 ++ (parseVersionInterval path (frArgs a).2 (some fx)).1 }) a', ?_, ?_, ?_⟩
+      · simp only [frStep]
+        rw [linesOf_updateLine _ _ TS hnS]
+        exact List.mem_map_of_mem h1
+      · simp only [frStep]
+        rw [linesOf_updateLine _ _ TL hnL]
+        exact List.mem_map_of_mem h2
+      · rw [updF_id]; exact h3
+    have := ih (frStep path fx TS r a e).2.1 (frStep path fx TL r a e).2.1 (frStep path fx TS r a e).2.2
+      (nodupIds_updateLine _ _ TS hnS) (nodupIds_updateLine _ _ TL hnL) hc'
+    rw [← hstep3, ← hstep1]
+    exact ⟨by rw [this.1], this.2⟩
+
+
+theorem fixRetract_mono (st : AddState) (fix : Option Fixer) :
+    ∃ add, (fixRetract st fix).errsRev = add ++ st.errsRev := by
+  unfold fixRetract
+  cases fix with
+  | none => exact ⟨[], rfl⟩
+  | some fx =>
+    simp only
+    cases hret : st.file.retract with
+    | nil => exact ⟨[], rfl⟩
+    | cons r rest =>
+      simp only
+      have hloop : ∀ path, ∃ add, (fixRetractLoop path fx (r :: rest) st.file.syn st.errsRev).2.2 = add ++ st.errsRev := by
+        intro path
+        obtain ⟨add, h, _⟩ := fixRetractLoop_errs (fun _ => True) path fx (r :: rest) st.file.syn st.errsRev
+          (fun _ _ => trivial)
+        exact ⟨add, h⟩
+      split
+      · split
+        · exact ⟨[_], rfl⟩
+        · exact hloop _
+      · exact ⟨[_], rfl⟩
+
+theorem fixRetract_sim (stS stL : AddState) (fix : Option Fixer) (h : Sim stS stL)
+    (hnS : NodupIds stS.file.syn.stmts) (hnL : NodupIds stL.file.syn.stmts)
+    (hc : Common stS.file.syn stL.file.syn stS.file.retract)
+    (hok : (fixRetract stS fix).errsRev = []) : Sim (fixRetract stS fix) (fixRetract stL fix) := by
+  have hcore := h.core
+  simp only [fcore, Prod.mk.injEq] at hcore
+  obtain ⟨hm, hg, hr, ht⟩ := hcore
+  have he := h.errs
+  unfold fixRetract at hok ⊢
+  cases fix with
+  | none => exact h
+  | some fx =>
+    simp only at hok ⊢
+    rw [hm, ht, he]
+    cases hret : stS.file.retract with
+    | nil => exact h
+    | cons r rest =>
+      rw [hret] at hok hc
+      simp only at hok ⊢
+      cases hmod : stS.file.module with
+      | none =>
+        simp only [hmod] at hok
+        exact absurd hok (by simp [AddState.err])
+      | some m =>
+        simp only [hmod] at hok ⊢
+        cases hpe : m.mod.path.isEmpty with
+        | true =>
+          simp only [hpe, if_true] at hok
+          exact absurd hok (by simp [AddState.err])
+        | false =>
+          simp only [Bool.false_eq_true, if_false]
+          obtain ⟨h1, h2⟩ := fixRetractLoop_sim m.mod.path fx (r :: rest) stS.file.syn stL.file.syn stS.errsRev hnS hnL hc
+          refine ⟨?_, ?_⟩
+          · simp only [fcore, hg, hr, h1]
+          · exact h2.symm
+
+theorem Sim.refl (st : AddState) : Sim st st := ⟨rfl, rfl⟩
+
+/-- the state handed to `fixRetract` -/
+def mkSt (fs : FileSyntax) (R : AddState × List Expr) : AddState :=
+  { R.1 with file := { R.1.file with syn := { fs with stmts := R.2 } } }
+
+theorem parseToFile_eq (name data : Bytes) (fix : Option Fixer) (strict : Bool) :
+    parseToFile name data fix strict =
+      match parse name data with
+      | .error e => .error [⟨e.pos, .syn e.kind⟩]
+      | .ok fs =>
+        if (fixRetract (mkSt fs (addStmts fix strict { file := { syn := fs } } fs.stmts)) fix).errsRev.isEmpty then
+          .ok (fixRetract (mkSt fs (addStmts fix strict { file := { syn := fs } } fs.stmts)) fix).file
+        else .error (fixRetract (mkSt fs (addStmts fix strict { file := { syn := fs } } fs.stmts)) fix).errsRev.reverse := by
+  unfold parseToFile mkSt
+  cases parse name data <;> rfl
+
+/-- `lax_superset` -/
+theorem lax_superset (name data : Bytes) (fix : Option Fixer) (f : File)
+    (h : parseToFile name data fix true = .ok f) :
+    ∃ g, parseToFile name data fix false = .ok g ∧ g.module = f.module ∧ g.go = f.go ∧
+      g.require = f.require ∧ g.retract = f.retract := by
+  rw [parseToFile_eq] at h ⊢
+  cases hparse : parse name data with
+  | error e => rw [hparse] at h; cases h
+  | ok fs =>
+    rw [hparse] at h
+    simp only at h ⊢
+    have hnod := parse_ids_nodup hparse
+    generalize hS : addStmts fix true { file := { syn := fs } } fs.stmts = S at h
+    generalize hL : addStmts fix false { file := { syn := fs } } fs.stmts = L
+    have hkS := addStmts_keys fix true fs.stmts { file := { syn := fs } }
+    have hkL := addStmts_keys fix false fs.stmts { file := { syn := fs } }
+    rw [hS] at hkS
+    rw [hL] at hkL
+    have ids_of_keys : ∀ {X : List Line}, X.map lineKey = (linesOf fs.stmts).map lineKey →
+        (X.map (·.id)).Nodup := by
+      intro X hk
+      have := congrArg (List.map Prod.fst) hk
+      simp only [List.map_map] at this
+      have e : (Prod.fst ∘ lineKey) = (·.id) := rfl
+      rw [e] at this
+      rw [this]; exact hnod
+    have hnS : NodupIds (mkSt fs S).file.syn.stmts := ids_of_keys hkS
+    have hnL : NodupIds (mkSt fs L).file.syn.stmts := ids_of_keys hkL
+    split at h
+    · rename_i hempty
+      simp only [Except.ok.injEq] at h
+      have hnil : (fixRetract (mkSt fs S) fix).errsRev = [] := by simpa using hempty
+      obtain ⟨add, hadd⟩ := fixRetract_mono (mkSt fs S) fix
+      rw [hnil] at hadd
+      have hS0 : S.1.errsRev = [] := (List.append_eq_nil_iff.mp hadd.symm).2
+      have hsim := addStmts_sim fix fs.stmts { file := { syn := fs } } { file := { syn := fs } } (Sim.refl _)
+        (by rw [hS]; exact hS0)
+      rw [hS, hL] at hsim
+      obtain ⟨hsim1, hrt⟩ := hsim
+      have hfin := fixRetract_sim (mkSt fs S) (mkSt fs L) fix ⟨hsim1.core, hsim1.errs⟩ hnS hnL
+        (by
+          intro r hr
+          rcases hrt r hr with h0 | h1
+          · cases h0
+          · exact h1)
+        hnil
+      have herr : (fixRetract (mkSt fs L) fix).errsRev = [] := by rw [hfin.errs]; exact hnil
+      rw [herr]
+      refine ⟨_, rfl, ?_⟩
+      have hc := hfin.core
+      simp only [fcore, Prod.mk.injEq] at hc
+      rw [← h]
+      exact hc
+    · cases h
 
 end ModVerif.Proofs.ModfileC20
